@@ -6,7 +6,7 @@
 package stdlib_contracts
 
 //@ package math/big
-//@ ghost Int.v int
+//@ ghost Int.v int zero
 
 // powers and roots are uninterpreted; the facts about them a proof may use are stated where
 // they are returned (sign of a power, definition of the integer square root)
